@@ -185,6 +185,10 @@ static bool gvt_node_phase_run(void)
 				break;
 
 			gvt_phase = gvt_phase ^ (!node_phase);
+#ifdef ROOTSIM_VERIF
+			if(!node_phase)
+				VERIF_TRACE(VT_NODE, 1, gvt_phase, 0, 0);
+#endif
 			VERIF_TRACE(VT_GVT_PHASE, thread_phase_idle, thread_phase_A, verif_bits(gvt_accumulator), 2);
 			thread_phase = thread_phase_A;
 			++node_phase;
@@ -193,6 +197,11 @@ static bool gvt_node_phase_run(void)
 			if(atomic_load_explicit(&c_a, memory_order_relaxed))
 				break;
 
+#ifdef ROOTSIM_VERIF
+			for(nid_t i = n_nodes - 1; i >= 0; --i)
+				VERIF_TRACE(VT_NODE, 2, i, remote_msg_seq[!gvt_phase][i] - last_seq[!gvt_phase][i], 0);
+			VERIF_TRACE(VT_NODE, 3, 0, 0, 0);
+#endif
 			for(nid_t i = n_nodes - 1; i >= 0; --i)
 				atomic_fetch_add_explicit(&total_sent[i],
 				    remote_msg_seq[!gvt_phase][i] - last_seq[!gvt_phase][i], memory_order_relaxed);
@@ -210,6 +219,7 @@ static bool gvt_node_phase_run(void)
 		case node_sent_reduce_wait:
 			if(!mpi_reduce_sum_scatter_done())
 				break;
+			VERIF_TRACE(VT_NODE, 4, remote_msg_to_receive, 0, 0);
 			atomic_fetch_sub_explicit(&total_msg_received, remote_msg_to_receive + global_config.n_threads,
 			    memory_order_relaxed);
 			node_phase = node_sent_wait;
@@ -221,6 +231,7 @@ static bool gvt_node_phase_run(void)
 				remote_msg_received[!gvt_phase] = 0;
 				if(r)
 					break;
+				VERIF_TRACE(VT_NODE, 5, 0, 0, 0);
 				uint32_t q = n_nodes / global_config.n_threads + 1;
 				memset(total_sent + rid * q, 0, q * sizeof(*total_sent));
 				node_phase = node_phase_redux_second;
